@@ -377,3 +377,22 @@ def check_sub_tlvs(d, top):
                 return False
         i = start + ln
     return i == n
+
+
+def count_prefixes(d, addpath=False):
+    """number of <length, prefix> entries in a prefix field (assumes check_prefixes accepted it)"""
+    i, n, k = 0, len(d), 0
+    while i < n:
+        if addpath:
+            i += 4
+        i += 1 + (d[i] + 7) // 8
+        k += 1
+    return k
+
+
+def update_prefix_counts(raw, addpath=False):
+    """(withdrawn count, nlri count) of a complete UPDATE message"""
+    body = raw[19:]
+    wl = u16(body, 0)
+    al = u16(body, 2 + wl)
+    return count_prefixes(body[2:2 + wl], addpath), count_prefixes(body[4 + wl + al:], addpath)
